@@ -544,6 +544,10 @@ def call_builtin(ex, st, name, args, kwargs, node):
         if not args:
             return VSeq([z3.K(I, z3.IntVal(0))], z3.IntVal(0), TInt(), "list" if name == "list" else "bytes")
         v = args[0]
+        if name in ("bytes", "bytearray") and isinstance(v, (VInt, VBool)) and len(args) == 1:
+            # bytes(n): n zero bytes (ValueError for a negative n)
+            ex.oblige(st, f"L{line}.bytes_count_not_negative", as_int(v) >= 0, "safety")
+            return VSeq([z3.K(I, z3.IntVal(0))], as_int(v), TInt(0, 255), "bytes")
         if isinstance(v, VSeq):
             kind = "list" if name == "list" else ("bytes" if name != "tuple" else v.kind)
             if name in ("bytes", "bytearray") and v.kind in ("array:I", "array:i"):
@@ -768,6 +772,22 @@ def value_method(ex, st, recv, name, args, kwargs, node):
     if isinstance(recv, VSeq):
         from . import streams
         return streams.seq_io_method(ex, st, recv, name, args, node)
+    if isinstance(recv, VBuiltin) and recv.name == "int" and name == "from_bytes" and args and isinstance(args[0], VSeq):
+        # int.from_bytes(b, "little" | "big" | sys.byteorder [, signed=...]) for a byte string of a LITERAL length
+        from . import streams
+        order = args[1] if len(args) > 1 else kwargs.get("byteorder")
+        signed = kwargs.get("signed")
+        ln = z3.simplify(args[0].ln)
+        if not (isinstance(order, VStr) and order.lit in ("little", "big")) or not z3.is_int_value(ln) \
+                or not (signed is None or (isinstance(signed, VBool) and z3.is_true(z3.simplify(signed.t)) or z3.is_false(z3.simplify(signed.t)))):
+            raise Unsupported("int.from_bytes with a non-literal length, byte order or signedness")
+        w = ln.as_long()
+        a = args[0].comps[0]
+        raw = streams.le_uint(a, 0, w) if order.lit == "little" else streams.be_uint(a, 0, w)
+        ex.lib_used.add("int.from_bytes(b, order, signed): the little/big-endian integer of the bytes (two's complement if signed)")
+        if signed is not None and z3.is_true(z3.simplify(signed.t)):
+            return VInt(z3.If(raw >= 2 ** (8 * w - 1), raw - 2 ** (8 * w), raw))
+        return VInt(raw)
     if isinstance(recv, VBuiltin) and recv.name in ("md5", "sha256", "hashlib.md5", "hashlib.sha256"):
         pass
     if isinstance(recv, VOpaque) and recv.desc.startswith("digest:"):
